@@ -65,6 +65,10 @@ def run(ctx):
                 size[perm[a]] = n_in[a]
                 chunk[perm[a]] = cs_in[a]
             nr = np.random.default_rng(rng.getrandbits(32))
+            direct = rng.random() < 0.3
+            if direct and n_in[2] < 11 and rng.random() < 0.7:
+                n_in[2] = rng.choice([11, 12, 13])         # names s9 / s10 ... : the two orders differ
+                size[perm[2]] = n_in[2]
             stacks = []
             dirs = []
             for d in range(ndirs):
@@ -82,7 +86,10 @@ def run(ctx):
                 ext = "png" if rgb else rng.choice(["png", "tif"])
                 for s in range(n_in[2]):
                     kw = {"photometric": "minisblack"} if ext == "tif" else {}
-                    skimage.io.imsave(os.path.join(ddir, f"s{s:04d}.{ext}"), st[s], check_contrast=False, **kw)
+                    # direct API use: the caller passes its own list, here in NUMERIC order of names that are not
+                    # zero-padded (s9 before s10), which is not the lexicographic order
+                    nm = f"s{s}.{ext}" if direct else f"s{s:04d}.{ext}"
+                    skimage.io.imsave(os.path.join(ddir, nm), st[s], check_contrast=False, **kw)
                 dirs.append(ddir)
             dest = os.path.join(tmp, "ds")
             os.makedirs(dest)
@@ -93,7 +100,7 @@ def run(ctx):
             with open(os.path.join(dest, "info"), "w") as f:
                 json.dump(info, f)
             opts = {"flat": rng.random() < 0.5, "gzip": rng.random() < 0.5}
-            desc = {"orientation": code, "input_size_col_row_slice": n_in, "input_chunk": cs_in, "dtype": dt,
+            desc = {"orientation": code, "direct_api_numeric_names": direct, "input_size_col_row_slice": n_in, "input_chunk": cs_in, "dtype": dt,
                     "rgb": rgb, "directories": ndirs, "output_dtype": out_dt, "options": opts}
             import pathlib
             recorded = []
@@ -104,8 +111,13 @@ def run(ctx):
                 return _orig(self, chunk, key, coords)
             precomputed_io.PrecomputedIO.write_chunk = spy
             try:
-                slices_to_precomputed.convert_slices_in_directory([pathlib.Path(d) for d in dirs], dest,
-                                                                  input_orientation=code, options=opts)
+                if direct:
+                    ext_of = {d: os.path.splitext(os.listdir(d)[0])[1] for d in dirs}
+                    lists = [tuple(os.path.join(d, f"s{s}{ext_of[d]}") for s in range(n_in[2])) for d in dirs]
+                    slices_to_precomputed.slices_to_raw_chunks(lists, dest, code, options=opts)
+                else:
+                    slices_to_precomputed.convert_slices_in_directory([pathlib.Path(d) for d in dirs], dest,
+                                                                      input_orientation=code, options=opts)
             except Exception as exc:  # noqa
                 ctx.oracle_fail(f"slice conversion raised {type(exc).__name__}: {exc}", desc)
                 continue
